@@ -1036,7 +1036,13 @@ pub fn drill_kill_bank(sim: &mut Sim, ctx: &mut Ctx) {
         };
         sim.apply(ev);
     }
-    sim.apply(Event::Advance { dt: 5, dslot: 10, depoch: 0 });
+    // half of the time no time passes at all, so that the bad debt equals the deposits EXACTLY
+    // (the "at" case of the kill switch), otherwise a little interest makes it strictly larger
+    if ctx.rng.chance(1, 2) {
+        sim.apply(Event::Advance { dt: 5, dslot: 10, depoch: 0 });
+    } else {
+        sim.stats.fault("drill_kill_bank_exact_equality");
+    }
     let mut f = Vec::new();
     for e in act_oracle_publish(sim, ctx, &mut f) {
         // keep the crashed collateral price: skip re-publishing X
